@@ -158,6 +158,12 @@ def judge(R, c, r, stats):
     if 0.0 < fm < floor:
         stats["cancelling_force_cases"] = stats.get("cancelling_force_cases", 0) + 1
         fm = floor
+    # a grazing contact: every observed force is below 1e-9 of the natural force scale E * size^3 of the pair; the
+    # relative comparisons are meaningless there (flags may flicker), nothing is judged
+    fscale = max(c["b1"].get("E", 1.0), c["b2"].get("E", 1.0)) * min(hg.body_size(c["b1"]), hg.body_size(c["b2"])) ** 3
+    if 0.0 < fm < 1e-9 * fscale:
+        stats["grazing_flag_changes"] += 1
+        return False
     ratios = [x.get("min_normal_ratio") for x in (r["internals"], sw, mv, r["repeat2"]) if x.get("min_normal_ratio") is not None]
     for key in ("inter_b3", "inter_back", "b3_fresh"):
         if key in r and r[key].get("min_normal_ratio") is not None:
